@@ -140,9 +140,9 @@ func c06Scenario(r *vx.Rand) {
 }
 
 func runC06() {
-	n := 600
+	n := 3000
 	if run.Thorough() {
-		n = 10000
+		n = 60000
 	}
 	for i := 0; i < n; i++ {
 		c06Scenario(rnd.Fork())
